@@ -41,3 +41,43 @@ def run(ctx):
     # otherwise a writer queued behind another one allocates from a stale base and two nodes get the same identity
     from .c09 import writer_rmw_rule
     writer_rmw_rule(ctx, "C32.2")
+
+    # ---- clause 3: the identity registry never forgets ------------------------------------------------------------------
+    # Every duplicate check (WriteTxn::create_node, IdMap::apply_create_node_multi_label at commit, WAL replay) is answered from the in-memory
+    # external -> internal map `e2i`.  Node records are never removed from the table (a deleted node keeps its record and its internal id), so
+    # the map may only grow: removing the entry of a deleted node makes its external id look free, a second node receives the same identity and
+    # the next reopen fails with `external id remapped`.
+    from ..mirutil import recv_field
+    ctx.rule("C32.3", "IdMap.e2i (external id -> internal id) is only ever added to: no remove / retain / clear, no whole-map assignment outside construction / load")
+    IDMAP = "nervusdb_storage::idmap::IdMap"
+    ADD = ("insert", "extend", "reserve", "entry", "or_insert", "try_insert")
+    n3 = 0
+    for i, b in sorted(F.bodies.items()):
+        if not i.startswith("nervusdb_storage::") or "::tests::" in i:
+            continue
+        k = 0
+        for c in b.calls():
+            if not c.args or c.args[0][0] not in ("c", "m"):
+                continue
+            fld = recv_field(b, c)
+            if not fld or fld[0] != "e2i" or fld[1] != IDMAP:
+                continue
+            if not b.local_ty(c.args[0][1][0]).startswith("&mut"):
+                continue
+            n3 += 1
+            short = c.name.split("::")[-1]
+            ctx.instance("C32.3", "%s: e2i.%s (%s)" % (i, short, c.loc()))
+            ctx.oblige(short in ADD, "C32.3", "%s:e2i.%s#%d" % (b.root or i, short, k),
+                       "the external-id registry shrinks (`%s`): the id of a deleted node is handed out again while its node record still exists — two nodes "
+                       "share one identity and the database cannot be reopened" % short, c.loc())
+            k += 1
+        for blk in b.blocks:
+            if blk["c"]:
+                continue
+            for st in blk["s"]:
+                if st[0] == "a" and st[1][1] and isinstance(st[1][1][-1], list) and st[1][1][-1][0] == "f" and st[1][1][-1][2] == "e2i" and st[1][1][-1][3] == IDMAP:
+                    n3 += 1
+                    ok = i.endswith(("IdMap::load", "IdMap::new", "IdMap::default"))
+                    ctx.instance("C32.3", "%s: assigns e2i as a whole" % i)
+                    ctx.oblige(ok, "C32.3", "%s:e2i-replaced" % (b.root or i), "the external-id registry is replaced as a whole outside load", "%s:%d" % (b.file, st[3]))
+    ctx.floor("C32.3", "mutating accesses to IdMap.e2i", n3, 1)
